@@ -118,3 +118,24 @@ Fixpoint fam_go (pool : list nat) (s : Families.st) (ops : list Families.op) (ob
   end.
 Definition check_families (pool : list nat) (ops : list Families.op) (obs : list fobs) : nat * nat :=
   fam_go pool Families.init ops obs 1 (0, 0).
+
+(* the same with groups of operations: the commits of one group ran at the same time (each on its own goroutine, queued
+   behind one another on the store's manifest lock) and are observed once, after all of them returned; the model applies
+   them one after the other, in the order of their table numbers *)
+Fixpoint famg_go (pool : list nat) (s : Families.st) (groups : list (list Families.op)) (obs : list fobs) (k : nat) (acc : nat * nat)
+  : nat * nat :=
+  match groups, obs with
+  | g :: groups', ob :: obs' =>
+    let s' := fold_left (Families.step true true) g s in
+    let corr_ok := (length ob =? length pool) &&
+      forallb (fun '(n, (oid, cs)) => oid_eqb (Families.lookup n (Families.fams (Families.m s'))) oid
+                                      && nat_list_eqb (Families.view s' n) cs) (combine pool ob) in
+    let orac_ok := forallb (fun '(n, (_, cs)) => nat_list_eqb cs (Families.committed s' n)) (combine pool ob)
+                   && distinct_ids (map fst ob) in
+    famg_go pool s' groups' obs' (S k)
+      ((if (fst acc =? 0) && negb corr_ok then k else fst acc), (if (snd acc =? 0) && negb orac_ok then 120 else snd acc))
+  | [], [] => acc
+  | _, _ => (if fst acc =? 0 then 999 else fst acc, snd acc)
+  end.
+Definition check_family_groups (pool : list nat) (groups : list (list Families.op)) (obs : list fobs) : nat * nat :=
+  famg_go pool Families.init groups obs 1 (0, 0).
